@@ -230,6 +230,9 @@ def run(chk, repo, tier):
                  what='update = union of ranges, per-datum conflict test '
                       'before taking the datum, commit of all fields, one '
                       'rebuild')
+    # the "one rebuild" that ends a merge reflects every merged field
+    from .c05 import rebuild_unconditional
+    rebuild_unconditional(chk, repo, 'R13.3')
     meths = repo.methods(INC, 'ThermochemIncomplete')
     for m, ref in REFS_INC.items():
         rule = 'R13.4' if m.startswith('has_') else 'R13.6'
